@@ -48,7 +48,10 @@ func Mutate(r *core.Rng, in []byte) []byte {
 			b = r.Bytes(r.Range(1, 16))
 			continue
 		}
-		switch r.Intn(8) {
+		switch r.Intn(10) {
+		case 8, 9: // a decimal field (count, length, offset) set to a boundary value, incl. the
+			// middle range that is too big to allocate but small enough to be tried
+			b = decimalBoundary(r, b)
 		case 0: // bit flips
 			for i := r.Range(1, 4); i > 0; i-- {
 				b[r.Intn(len(b))] ^= 1 << uint(r.Intn(8))
@@ -128,4 +131,35 @@ func Join(steps [][]byte) []byte {
 		out = append(out, s...)
 	}
 	return out
+}
+
+// BoundaryNumbers are the decimal values tried in count/length fields.
+var BoundaryNumbers = []string{"0", "1", "-1", "255", "65535", "65536", "2147483647", "2147483648", "4294967295", "4294967296", "8589934592",
+	"1099511627776", "8796093022208", "17592186044416", "17592186044417", "4611686018427387904", "9223372036854775807", "9223372036854775808",
+	"18446744073709551615", "18446744073709551616", "99999999999999999999"}
+
+// decimalBoundary replaces one run of decimal digits in b with a boundary number.
+func decimalBoundary(r *core.Rng, b []byte) []byte {
+	type run struct{ i, j int }
+	var runs []run
+	for i := 0; i < len(b); {
+		if b[i] >= '0' && b[i] <= '9' {
+			j := i
+			for j < len(b) && b[j] >= '0' && b[j] <= '9' {
+				j++
+			}
+			runs = append(runs, run{i, j})
+			i = j
+		} else {
+			i++
+		}
+	}
+	if len(runs) == 0 {
+		return b
+	}
+	x := runs[r.Intn(len(runs))]
+	n := BoundaryNumbers[r.Intn(len(BoundaryNumbers))]
+	out := append([]byte(nil), b[:x.i]...)
+	out = append(out, n...)
+	return append(out, b[x.j:]...)
 }
